@@ -1,6 +1,6 @@
 """C08 - piecewise estimators: a partition by the binner with one local model per bucket."""
 from vf import loader
-from vf.core import Clause, Outcome, Violation, require
+from vf.core import Clause, Outcome, Violation, require, with_sk
 from vf.estimators import RecordingRegressor, RecordingClassifier
 
 import numpy as np
@@ -337,6 +337,6 @@ def _cases(draw, tier="quick"):
 
 
 CLAUSES = [
-    Clause("piecewise", check, strategy=lambda tier: _cases(tier), quick=1600, thorough=25000, quick_shards=16,
+    Clause("piecewise", check, strategy=lambda tier: with_sk(_cases(tier)), quick=1600, thorough=25000, quick_shards=16,
            doc="partition, local training sets, dispatch, n_jobs independence, probabilities"),
 ]
